@@ -407,13 +407,8 @@ impl Scala {
     ) -> std::io::Result<()> {
         // one doc string can span several lines (block doc comments, `#[doc = ".."]`): every line
         // has to be a comment of its own
-        for line in comment.split('\n') {
-            writeln!(
-                w,
-                "{}// {}",
-                "\t".repeat(indent),
-                line.trim_end_matches('\r')
-            )?;
+        for line in super::comment_lines(comment) {
+            writeln!(w, "{}// {}", "\t".repeat(indent), line)?;
         }
         Ok(())
     }
